@@ -171,7 +171,10 @@ def random_cases(draw):
     # one case in four works in another path configuration than the default one (its own root, mapping and templates)
     others = [c for c in model.paths if c != model.default_config]
     config = draw(st.sampled_from(others)) if others and draw(st.integers(0, 3)) == 0 else None
-    return {"sids": sids, "ops": ops, "fresh": draw(st.integers(0, 9)) == 0, "config": config}
+    # the configuration may name a template file per extension: files are then created by copying it (instead of touch)
+    exts = sorted({x.split("/")[-1] for x in sids if m.type_first(x)[0] and m.is_leaf_type(m.type_first(x)[0])})
+    templates = draw(st.lists(st.sampled_from(exts), max_size=2, unique=True)) if exts and draw(st.integers(0, 3)) == 0 else []
+    return {"sids": sids, "ops": ops, "fresh": draw(st.integers(0, 9)) == 0, "config": config, "templates": templates}
 
 
 def sidecar_class(path: str) -> str:
@@ -179,6 +182,28 @@ def sidecar_class(path: str) -> str:
 
 
 def evaluate(case) -> Outcome:
+    from spil import conf as _conf
+    configured = getattr(_conf, "create_file_using_template", None)
+    added = []
+    if case.get("templates") and isinstance(configured, dict):
+        from vp import env as _env
+        for ext in case["templates"]:
+            if ext not in configured:
+                tp = _env.scratch() / f"c15_template.{ext}"
+                tp.write_text("template of " + ext)
+                configured[ext] = str(tp)
+                added.append(ext)
+    try:
+        out = _evaluate(case)
+        if added:
+            out.label("file-templates-configured")
+        return out
+    finally:
+        for ext in added:
+            configured.pop(ext, None)
+
+
+def _evaluate(case) -> Outcome:
     from spil import FindInPaths, GetFromPaths, Sid, SpilException, WriteToPaths
     model = _m()
     m = model.sid
